@@ -39,13 +39,50 @@ fn check_case(c: &SeqCase, obs: &mut Obs) -> Verdict {
     obs.class_if(slid, "an insertion was moved by compaction");
     obs.class_if(k.is_some(), "deadline (virtual clock)");
     obs.class_if(!c.is_full(), "sub-range");
+    obs.class_if(c.old.len() + c.new.len() > 2000, "more than 2000 items");
     obs.class_if(c.or.0 == c.or.1 && c.nr.0 == c.nr.1, "both ranges empty");
     obs.class_if(ops.iter().any(|o| matches!(o, DiffOp::Replace { .. })), "has Replace");
     Verdict::Pass
 }
 
 fn strat(tier: Tier) -> BoxedStrategy<SeqCase> {
-    seq_case_k(tier.pick(100, 300), true, 3, true)
+    use proptest::collection::vec;
+    let big = tier.pick(2500usize, 5000);
+    prop_oneof![
+        400 => seq_case_k(tier.pick(100, 300), true, 3, true),
+        // thousands of raw ops: long sequences over a small alphabet with hundreds of scattered edits
+        1 => (2u32..5, vec(0u32..64, 1200..=big), vec((0u8..3, any::<u16>(), 0u32..64), 300..=900), 0u8..2).prop_map(|(k, a, es, alg)| {
+            let a: Vec<u32> = a.into_iter().map(|x| x % k).collect();
+            let mut b = a.clone();
+            for (kind, at, val) in es {
+                let n = b.len();
+                if n == 0 {
+                    break;
+                }
+                let p = pos(at, n - 1);
+                match kind {
+                    0 => {
+                        b.remove(p);
+                    }
+                    1 => b.insert(p, val % k),
+                    _ => b[p] = val % k,
+                }
+            }
+            SeqCase::full(alg, a, b)
+        }),
+        // one edit next to a very long periodic run (an insertion has to slide thousands of positions)
+        1 => (1usize..4, 2200..=tier.pick(5200usize, 9000), 0usize..3, any::<u16>(), 0u8..3).prop_map(|(p, n, extra, at, alg)| {
+            let a: Vec<u32> = (0..n).map(|i| (i % p) as u32).collect();
+            let mut b = a.clone();
+            let q = pos(at, b.len());
+            for t in 0..=extra {
+                b.insert(q, ((q + t) % p) as u32);
+            }
+            let alg = if alg == 2 { 0 } else { alg }; // LCS tables of this size are too large
+            SeqCase::full(alg, a, b)
+        }),
+    ]
+    .boxed()
 }
 
 fn enum_small(tier: Tier, f: &mut dyn FnMut(SeqCase) -> bool) {
@@ -69,7 +106,7 @@ impl Prop for C09 {
     type Case = SeqCase;
     const ID: &'static str = "C09";
     fn rule() -> String {
-        "cases = (algorithm, old, new, ranges, capture entry point, deadline none | virtual clock expiring at probe k); enumeration of all pairs over {0,1} (repeats next to every edit) x {none, k=0, k=1} plus proptest mixture. Oracle: Equal/non-Equal strictly alternate, no empty op or empty Replace side, every Insert followed by an Equal has new[ins.new_index] != old[eq.old_index]. Non-trivial = at least 3 ops; distinct = distinct serialized case. (C10 additionally pushes arbitrary valid scripts through Compact+Replace and applies the same normal-form oracle.)".into()
+        "cases = (algorithm, old, new, ranges, capture entry point, deadline none | virtual clock expiring at probe k); enumeration of all pairs over {0,1} (repeats next to every edit) x {none, k=0, k=1} plus proptest mixture, plus (1 case in ~200 each) sequences of 1200-2500/5000 items with 300-900 scattered edits (thousands of raw ops) and single edits next to periodic runs of 2200-5200/9000 items (an insertion slides thousands of positions). Oracle: Equal/non-Equal strictly alternate, no empty op or empty Replace side, every Insert followed by an Equal has new[ins.new_index] != old[eq.old_index]. Non-trivial = at least 3 ops; distinct = distinct serialized case. (C10 additionally pushes arbitrary valid scripts through Compact+Replace and applies the same normal-form oracle.)".into()
     }
     fn assumptions() -> Vec<String> {
         vec!["expiry placed by the virtual clock hook".into()]
